@@ -22,7 +22,7 @@ def fr(msg, rng, in_response_to=0):
     return node.frame(h, msg)
 
 
-def base_traffic(rng, tree, keys, cr, nonce):
+def base_traffic(rng, tree, keys, cr, nonce, replay=None):
     """frames that are valid protocol traffic but have no legitimate effect on chain state, pool or store"""
     cs = tree.cs
     blocks = tree.blocks
@@ -31,6 +31,9 @@ def base_traffic(rng, tree, keys, cr, nonce):
     out.append(("hello", fr(HelloMessage([SupportedVersion(0)], IPv6Address(gens.rb(rng, 16)), 2412,
                                          IPv6Address(bytes(16)), rng.randrange(0, 65536), rng.randrange(0, 2 ** 32),
                                          b"agent"), rng)))
+    if replay is not None:
+        # a byte-for-byte copy of the greeting another (well-behaved) connection sent earlier
+        out.append(("hello_replayed", replay))
     out.append(("get_blocks", fr(GetBlocksMessage([rng.choice(known) for _ in range(rng.randrange(0, 4))] +
                                                   [gens.rb(rng, 32)]), rng)))
     out.append(("inventory_known", fr(InventoryMessage([InventoryItem(DATA_BLOCK, rng.choice(known))
@@ -162,6 +165,13 @@ def run(ctx):
         t0 = tree.random_tx(tree.cs.current_chain_hash)
         ops = list(base_ops)
         impl = ["ok"] * len(ops)
+        # the well-behaved peer's greeting, through the wire (its nonce is then known to the node)
+        good_hello = fr(HelloMessage([SupportedVersion(0)], IPv6Address(gens.rb(rng, 16)), 2412, IPv6Address(bytes(16)), 2412,
+                                     rng.randrange(0, 2 ** 32), b"good"), rng)
+        node.CLOCK[0] = tree.cs.block_by_hash[tree.cs.current_chain_hash].timestamp + 50
+        rn.deliver_bytes(good, good_hello)
+        ops.append("node bytes %d %s %d" % (good, hx(good_hello), node.CLOCK[0]))
+        impl.append("ok")
         if t0 is not None:
             ops += keys.oracle_lines()
             impl += ["ok"] * len(keys.oracle)
@@ -208,7 +218,7 @@ def run(ctx):
             c = rn.add_peer(active=greeted, outgoing=outgoing)
             ops.append("node peer %d %d" % (1 if greeted else 0, 1 if outgoing else 0))
             impl.append("ok")
-            frames = base_traffic(rng, tree, keys, cr, rn.lp.nonce)
+            frames = base_traffic(rng, tree, keys, cr, rn.lp.nonce, replay=good_hello)
             rng.shuffle(frames)
             frames = frames[:rng.randrange(1, 7)]
             if not greeted and rng.random() < 0.5:
